@@ -48,6 +48,10 @@ class JSON:
 
     def __init__(self, version: str) -> None:
         self.version = version
+        # the "counter" of the events this encoder writes for a neighbor. It was ONE dictionary of the class: every
+        # other encoder counted in it too -- the JSON rendering the v4 text encoder makes and discards, the one of the
+        # debug log, the encoder of another API process -- so a consumer saw gaps for events it had not lost
+        self._count = {}
         self.time: Callable[[float], float] = nop
         self.compact = getenv().api.compact
         self.use_v4_json = False  # Set True for API v4 backward compat
